@@ -29,7 +29,7 @@ PI_MARGIN = 0.01
 
 
 def bounds(tier):
-    return dict(depth=3 if tier == "thorough" else 2, pi_margin=PI_MARGIN)
+    return dict(depth=4 if tier == "thorough" else 3, pi_margin=PI_MARGIN)
 
 
 def judge(res, name, B, L, AL, X, how, case, canonical_required=True):
@@ -151,7 +151,7 @@ def explore_config(case):
                      detail=dict(x=x, tag=e["tag"], exp=X, back=xb, err=maxabs(xb - x)), sub="config", case=case)
         judge(res, name, B, L, AL, X, "exp:" + e["tag"], case)
     # ---- words -------------------------------------------------------------------------------------
-    depth = (3 if tier == "thorough" else 2) if not is_dp else 2
+    depth = (4 if tier == "thorough" else 3) if not is_dp else 2
     gens_x = [e["p"] for e in xs if 0.02 < max([float(np.linalg.norm(v)) for s, v in zip(AL, gutil.slots_of(AL, e["p"])) if s[0] in ("rotvec", "angle")] + [0.0]) < 2.6]
     if not gens_x:
         gens_x = [e["p"] for e in xs if maxabs(e["p"]) > 0]
